@@ -92,14 +92,19 @@ pub enum Op {
     StepLocal { n: u8, t: u8, from: u8 },
     /// one MsgPropose carrying several entries (normal and conf-change) stepped at node n
     ProposeBatch { n: u8, items: Vec<Option<CcSpec>> },
+    /// asynchronous log fetch: `refuse` > 0 makes the node's storage answer that many async-capable
+    /// reads with LogTemporarilyUnavailable; `refuse` == 0 completes the outstanding fetches
+    /// (`on_entries_fetched` for every recorded context)
+    LogFetch { n: u8, refuse: u8 },
 }
 
-pub const NKINDS: usize = 29;
+pub const NKINDS: usize = 30;
 pub const KIND_NAMES: [&str; NKINDS] = [
     "Tick", "TickUntilTimeout", "Deliver", "Drop", "Dup", "Settle", "Partition", "Heal",
     "Propose", "ProposeConf", "ReadIndex", "Transfer", "Campaign", "ReportSnapshot",
     "ReportUnreachable", "RequestSnapshot", "ReadyStep", "Fsync", "Apply", "Crash", "Restart",
     "Compact", "Knob", "SnapUnavailable", "DeliverTo", "Ping", "TickAll", "StepLocal", "ProposeBatch",
+    "LogFetch",
 ];
 
 impl Op {
@@ -134,6 +139,7 @@ impl Op {
             Op::TickAll { .. } => 26,
             Op::StepLocal { .. } => 27,
             Op::ProposeBatch { .. } => 28,
+            Op::LogFetch { .. } => 29,
         }
     }
 }
@@ -429,6 +435,7 @@ impl Profile {
             25 => Op::Ping { n },
             26 => Op::TickAll { k: 1 + (a >> 7) },
             27 => Op::StepLocal { n, t: a % 5, from: node_of(b) },
+            29 => Op::LogFetch { n, refuse: if a < 150 { 1 + (a & 3) } else { 0 } },
             _ => {
                 let cnt = 2 + (a & 1) as usize;
                 let mut items = vec![];
